@@ -63,10 +63,23 @@ func Mix(seed int64, prop string, run int) *rand.Rand {
 }
 
 // Generate builds the plan for (property, seed, run).
+// properties whose requests may also reach the authorizer through SerializePolicies / LoadPolicies
+var viaLoad = map[string]bool{"C02": true, "C03": true, "C04": true, "C12": true, "C13": true}
+
 func Generate(id string, seed int64, run int, tier string) *vm.Plan {
 	s := Registry[id]
 	r := Mix(seed, id, run)
 	p := s.Gen(r, run, tier)
+	if viaLoad[id] && r.Intn(3) == 0 {
+		// one more way of presenting authorizer content: as a stored policy file (a scratch
+		// authorizer serializes it, the evaluating one loads it); drawn after the generator has
+		// finished, so the histories themselves are what they were
+		for i := range p.Ops {
+			if k := p.Ops[i].K; (k == "verify" || k == "azadd") && p.Ops[i].Az != nil && r.Intn(3) == 0 {
+				p.Ops[i].Flags = append(p.Ops[i].Flags, "via-load")
+			}
+		}
+	}
 	p.Property, p.Seed, p.Run = id, seed, run
 	if p.Profile == "" {
 		p.Profile = id
